@@ -15,6 +15,11 @@ def decode(string):
   return value
 
 def validate_decoded(obj):
+  if not isinstance(obj, int) and not isinstance(obj, float):
+    raise gfapy.TypeError(
+      "the class {} is incompatible with the datatype\n"
+      .format(obj.__class__.__name__)+
+      "(accepted classes: str, int, float)")
   if isinstance(obj, float) and not math.isfinite(obj):
     raise gfapy.ValueError(
       "{} cannot be represented in a GFA float field".format(obj))
